@@ -210,7 +210,8 @@ fn main() {
             let o = if plan.isolate {
                 engine::run_isolated(&prop, &v["case"], plan.case_timeout_s, plan.timeout_is_violation)
             } else if died {
-                engine::run_isolated(&prop, &v["case"], 60, true)
+                let own = v["case"].get("budget_s").and_then(|x| x.as_u64()).unwrap_or(0);
+                engine::run_isolated(&prop, &v["case"], if own > 0 { own + 120 } else { 60 }, true)
             } else {
                 engine::run_guarded(engine.as_mut(), &prop, &v["case"])
             };
